@@ -8,6 +8,7 @@ pub struct Meta {
     pub assumptions: Vec<&'static str>,
 }
 pub mod c01;
+pub mod c01_static;
 pub mod c02;
 pub mod c03;
 pub mod c04;
